@@ -379,9 +379,13 @@ def _transport_guard(run, ix):
 
 def _protocol(run, ix):
     f = ix.func("trimesh.caching:cache_decorator")
-    inner = f.nested.get("get_cached")
-    if inner is None:
-        raise AnalysisError("anchor vanished: cache_decorator.get_cached")
+    # the wrapper is the nested function that calls the decorated function (by role: its name is private to the decorator)
+    par = f.node.args.args[0].arg if f.node.args.args else None
+    wrappers = [g for g in f.nested.values()
+                if any(isinstance(c, ast.Call) and isinstance(c.func, ast.Name) and c.func.id == par for c in ast.walk(g.node))]
+    if len(wrappers) != 1:
+        raise AnalysisError(f"anchor vanished: the wrapper inside cache_decorator that calls the decorated function ({len(wrappers)} candidates)")
+    inner = wrappers[0]
     cfg = CFG(inner.node, exceptions=False)
     ver = [n for n, st in cfg.stmt.items() if st is not None and cfg.kind[n] == "stmt" and "._cache.verify()" in ast.unparse(st)]
     uses = [n for n, st in cfg.stmt.items() if st is not None and cfg.kind[n] in ("stmt", "test") and
